@@ -37,6 +37,12 @@ def gen_rules(rnd, nfields):
         if rnd.random() < 0.5:
             grp.append(None)
         xor.append(grp)
+    if xor and pool and rnd.random() < 0.4:
+        # overlapping groups: a second group that contains the first one
+        grp = [m for m in xor[0] if m is not None] + [pool.pop()]
+        if rnd.random() < 0.3:
+            grp.append(None)
+        xor.append(grp)
     return {"fields": fields, "requires": requires, "xor": xor}
 
 
